@@ -1059,6 +1059,7 @@ MODELS = [
     (r"^(std::cell::|core::cell::)?Cell::<.*>::take$", lambda e, s_, f, c, a, o: m_mem_take(e, s_, f, c, a, o)),
     (r"^<(std::ops::|core::ops::)?Range<\w+> as IntoIterator>::into_iter$", m_identity),
     (r"^<(std::ops::|core::ops::)?Range<\w+> as Iterator>::next$", m_range_next),
+    (r"^<(Box|Vec|String|std::string::String|std::boxed::Box|std::vec::Vec)<?.*>? as Drop>::drop$", lambda e, s_, f, c, a, o: UNIT),   # freeing memory: no observable effect
     (r"^(std|core)::mem::replace::<", m_mem_replace),
     (r"^(std|core)::mem::take::<", m_mem_take),
     # sequences
